@@ -281,6 +281,12 @@ type c09map struct {
 	w int // writes after creation (state that survives a call, see c09y.go)
 }
 type c09buf struct{ sb strings.Builder }
+
+// c09fieldptr is &x.f for a scalar field f (sync/atomic operands)
+type c09fieldptr struct {
+	s    *c09struct
+	name string
+}
 type c09typed struct { // interface value whose dynamic type is a named non-struct type
 	typ types.Type
 	v   any
@@ -1284,6 +1290,14 @@ func (vm *c09vm) eval(fr *c09frame, e ast.Expr) any {
 			case *c09array: // likewise arrays
 				return v
 			}
+			// &x.f of a scalar field: a pointer to the field of the (by-reference) struct
+			if se, ok := unparen(e.X).(*ast.SelectorExpr); ok {
+				if st, ok := vm.eval(fr, se.X).(*c09struct); ok && st != nil {
+					if _, has := st.f[se.Sel.Name]; has {
+						return &c09fieldptr{s: st, name: se.Sel.Name}
+					}
+				}
+			}
 		}
 		vm.abort("unary %s", e.Op)
 	case *ast.StarExpr:
@@ -1298,6 +1312,8 @@ func (vm *c09vm) eval(fr *c09frame, e ast.Expr) any {
 				vm.gopanic("nil pointer dereference")
 			}
 			return v
+		case *c09fieldptr:
+			return v.s.f[v.name]
 		case nil:
 			vm.gopanic("nil pointer dereference")
 		}
